@@ -67,6 +67,27 @@ def run(tier, seed, replay=None):
         v = rnd.choice([["comp", t2] + [rnd.choice(["q", "r", 1, 2, ["comp", "Wrap", "q"]]) for _ in range(a2)],
                         ["list"] + [1] * a1, 1, "nil", "q", ["comp", "Wrap", u]])
         cases.append(mk_case([], ["q", "r"], [[rnd.choice(["eq", "neq"]), u, v]]))
+    # Option-typed fields (Some(..) and None are one compound type with one or no child) and the pair tuple
+    def optw(some):
+        c = rnd.choice(["q", "r", 3, "x"])
+        if some:
+            return ["comp", "OptW", ["comp", "Opt", ["comp", "Pair", rnd.choice(["q", "x", 1]), rnd.choice(["r", "y", 2])]], c]
+        return ["comp", "OptW", ["comp", "Opt"], c]
+    for _ in range(n // 4):
+        u, v = optw(rnd.random() < 0.6), optw(rnd.random() < 0.5)
+        goals = [[rnd.choice(["eq", "eq", "neq"]), u, v]]
+        if rnd.random() < 0.5:
+            goals.append([rnd.choice(["eq", "neq"]), rnd.choice(["q", "r", "x"]), rnd.choice([1, 2, 3, "y"])])
+        if rnd.random() < 0.3:
+            goals.insert(0, ["eq", "y", optw(rnd.random() < 0.5)])
+            goals.append(["eq", "y", u])
+        rnd.shuffle(goals)
+        cases.append(mk_case([], ["q", "r"], [["fresh", ["x", "y"]] + goals]))
+    for _ in range(n // 6):
+        tup = lambda: ["comp", "Tup", rnd.choice(["q", 1, "x", ["list", "r"]]), rnd.choice(["r", 2, "y"])]
+        other = rnd.choice([tup(), tup(), ["comp", "Pair", "q", "r"], ["list", "q", "r"], "x", 1])
+        cases.append(mk_case([], ["q", "r"], [["fresh", ["x", "y"], [rnd.choice(["eq", "neq"]), tup(), other],
+                                              [rnd.choice(["eq", "neq"]), rnd.choice(["q", "x"]), rnd.choice([1, "r", tup()])]]]))
     # finite-domain variables inside compounds
     for _ in range(n // 4):
         lo, hi = rnd.randint(-2, 0), rnd.randint(1, 2)
